@@ -26,6 +26,11 @@ PROPS = {
                 {"name": "scripted", "vehicle": "overlay", "pkg": "internal/packages/internal/packageimport", "race": True, "test": "TestC20", "quick_checks": 300, "thorough_checks": 12000, "thorough_shards": 16},
                 {"name": "free", "vehicle": "overlay", "pkg": "internal/packages/internal/packageimport", "race": True, "test": "TestC20Free", "quick_checks": 300, "thorough_checks": 30000, "thorough_shards": 8, "replayable": False},
             ]},
+    "C13": {"level": "exploration", "assumptions": PURE_ASSUMPTIONS + ["templates come from a grammar around the offered function set (config access, sprig string functions, include of a uniquely named helper, getFile), not arbitrary Go templates"],
+            "parts": [
+                {"name": "render", "test": "TestC13", "quick_checks": 1500, "thorough_checks": 120000, "thorough_shards": 16},
+                {"name": "hermetic", "test": "TestC13Hermetic", "quick_checks": 3000, "thorough_checks": 200000, "thorough_shards": 8, "replayable": False},
+            ]},
     "C17": {"level": "exploration", "assumptions": PURE_ASSUMPTIONS,
             "parts": [{"name": "probing", "test": "TestC17", "quick_checks": 20000, "thorough_checks": 2000000, "thorough_shards": 16}]},
     "C04": engine_prop("TestC04"),
